@@ -38,7 +38,7 @@ type runner struct {
 
 func (c *Case) key() string {
 	var sb strings.Builder
-	fmt.Fprintf(&sb, "%s|%s|%s|%d|%s|%s", c.Fn, c.Alg, c.Path, c.Size, c.KeyKind, c.DstMod)
+	fmt.Fprintf(&sb, "%s|%s|%s|%d|%s|%s|%s", c.Fn, c.Alg, c.Path, c.Size, c.KeyKind, c.DstMod, c.Layout)
 	for _, a := range c.Args {
 		fmt.Fprintf(&sb, "|%s:%v:%d:%d:%d:%d", a.Name, a.Nil, a.Buf, a.Off, a.Len, a.Cap)
 	}
@@ -112,6 +112,18 @@ func (r *runner) classify(c *Case, o *Obs) {
 	res.Hit("class:" + o.Class)
 	if c.DstMod != "" {
 		res.Hit("dst:" + c.DstMod)
+	}
+	if c.Layout != "" {
+		res.Hit("layout:" + c.Layout)
+	} else {
+		res.Hit("layout:separate-buffers")
+	}
+	for _, a := range c.Args { // is some argument immediately followed by another one in the same buffer?
+		for _, b := range c.Args {
+			if !a.Nil && !b.Nil && a.Name != b.Name && a.Buf == b.Buf && a.Off+a.Len == b.Off && b.Len > 0 && a.Cap >= a.Len+b.Len {
+				res.Hit("adjacent:" + a.Name + "|" + b.Name)
+			}
+		}
 	}
 	bufs := map[int]int{}
 	for _, a := range c.Args {
@@ -386,6 +398,109 @@ func (r *runner) structured(g *gen) {
 	r.flush()
 }
 
+// structuredWire: every symmetric algorithm with its arguments packed into ONE buffer as adjacent
+// sub-slices, in several orders — the `nonce‖ciphertext‖tag` wire message, the (ciphertext, tag)
+// pair exactly as an encrypt call returns it (two adjacent windows of one array, the rest of the
+// arguments elsewhere), tag before ciphertext, key octets and associated data adjacent — on the
+// success path and with a tampered tag / associated data (authentication fails).
+func (r *runner) structuredWire(g *gen) {
+	decOrders := [][]int{ // indices into {ciphertext, key, nonce, tag, associatedData}
+		{2, 0, 3, 4, 1}, {0, 3, 2, 4, 1}, {3, 0, 2, 4, 1}, {1, 2, 4, 0, 3}, {4, 0, 3, 1, 2}, nil,
+	}
+	encOrders := [][]int{{2, 0, 3, 1}, {0, 2, 3, 1}, {1, 0, 2, 3}} // {plaintext, key, nonce, associatedData}
+	for _, alg := range symAlgs {
+		ks, ns := symSizes(alg)
+		fam := family(alg)
+		for _, L := range []int{0, 1, 15, 16, 17, 32} {
+			n := L
+			if fam == "aescbc-nopad" {
+				n = L / 16 * 16
+			}
+			if fam == "aeskw" {
+				n = 16 + L/8*8
+			}
+			key, nonce, ad, pt := g.r.Bytes(ks), g.r.Bytes(ns), g.r.Bytes(5), g.r.Bytes(n)
+			for _, ord := range encOrders {
+				c := &Case{Fn: "crypto.EncryptSymmetric", Alg: alg, KeyKind: "oct", Auth: true, Prim: true, OutLen: -1, Path: "ok"}
+				g.layoutWire(c, []req{{name: "plaintext", data: pt}, {name: "key", data: key}, {name: "nonce", data: nonce},
+					{name: "associatedData", data: ad}}, ord, 0)
+				r.run(c)
+			}
+			jk, err := jwk.FromRaw(append([]byte(nil), key...))
+			if err != nil {
+				continue
+			}
+			ct, tag, err := kit.EncryptSymmetric(append([]byte(nil), pt...), alg, jk, append([]byte(nil), nonce...), append([]byte(nil), ad...))
+			if err != nil {
+				continue
+			}
+			for variant := 0; variant < 3; variant++ {
+				vtag, vad, path, auth := tag, ad, "ok", true
+				switch variant {
+				case 1:
+					if len(tag) == 0 {
+						continue
+					}
+					vtag, path, auth = flip(tag, g.r), "tamper-tag", false
+				case 2:
+					if len(tag) == 0 {
+						continue
+					}
+					vad, path, auth = append(append([]byte(nil), ad...), 9), "tamper-ad", false
+				}
+				mk := func() *Case {
+					d := &Case{Fn: "crypto.DecryptSymmetric", Alg: alg, KeyKind: "oct", Auth: auth, Prim: true, OutLen: -1, Path: path}
+					switch fam {
+					case "aescbc", "aescbc-nopad":
+						d.Dec = hex.EncodeToString(cbcDecryptRaw(key, nonce, ct))
+					case "aescbchmac":
+						d.Dec = hex.EncodeToString(cbcDecryptRaw(key[len(key)-cbcAeadParams[alg].enc:], nonce, ct))
+					}
+					return d
+				}
+				reqs := []req{{name: "ciphertext", data: ct}, {name: "key", data: key}, {name: "nonce", data: nonce},
+					{name: "tag", data: vtag}, {name: "associatedData", data: vad}}
+				for _, ord := range decOrders {
+					for _, cm := range []int{0, -1} {
+						d := mk()
+						g.layoutWire(d, reqs, ord, cm)
+						r.run(d)
+					}
+				}
+				// the pair as an encrypt call returns it: ciphertext and tag adjacent in one array,
+				// everything else in buffers of its own
+				d := mk()
+				g.layoutWire(d, []req{reqs[0], reqs[3]}, []int{0, 1}, 0)
+				g.layout(d, []req{reqs[1], reqs[2], reqs[4]})
+				d.Layout = "wire-ct-tag-pair"
+				r.run(d)
+			}
+		}
+	}
+	for _, alg := range cbcAeadAlgs {
+		p := cbcAeadParams[alg]
+		for _, mode := range []string{"nil", "inplace", "own-enough", "own-short"} {
+			for _, L := range []int{0, 15, 16, 33} {
+				key, nonce, ad, pt := g.r.Bytes(p.enc+p.mac), g.r.Bytes(16), g.r.Bytes(7), g.r.Bytes(L)
+				c := &Case{Fn: "aescbcaead.Seal", Alg: alg, Auth: true, Prim: true, OutLen: -1, Path: "ok"}
+				g.layoutWire(c, []req{{name: "plaintext", data: pt}, {name: "nonce", data: nonce},
+					{name: "additionalData", data: ad}, {name: "key", data: key}}, []int{1, 0, 2, 3}, 0)
+				g.addDstMode(c, "plaintext", len(pkcs7(pt, 16))+p.tag, mode)
+				r.run(c)
+				raw := pkcs7(pt, 16)
+				body := cbcEncryptRaw(key[len(key)-p.enc:], nonce, raw)
+				sealed := append(append([]byte(nil), body...), cbcHmacTag(p, key, ad, nonce, body)...)
+				o := &Case{Fn: "aescbcaead.Open", Alg: alg, Auth: true, Prim: true, OutLen: -1, Path: "ok", Dec: hex.EncodeToString(raw)}
+				g.layoutWire(o, []req{{name: "ciphertext", data: sealed}, {name: "nonce", data: nonce},
+					{name: "additionalData", data: ad}, {name: "key", data: key}}, []int{1, 0, 2, 3}, 0)
+				g.addDstMode(o, "ciphertext", len(body), mode)
+				r.run(o)
+			}
+		}
+	}
+	r.flush()
+}
+
 func main() {
 	fl := lib.ParseFlags()
 	res := lib.NewResult(rule)
@@ -456,6 +571,7 @@ func main() {
 		r.flush()
 	}
 	r.structured(g)
+	r.structuredWire(g)
 	fams := []struct {
 		n int
 		f func() *Case
